@@ -164,6 +164,19 @@ def register(reg):
         _mk(reg, qual, params, {}, mk_self, not_seq(pname), raises=TypeError, name="path-is-not-a-sequence")
         _mk(reg, qual, params, {pname: int_tuple}, mk_self, bad_nibble(pname), raises=ValueError, name="element-is-not-a-nibble")
 
+    # get_from_proof: a key or a root hash that is not a byte string is refused (by the snapshot's get / constructor)
+    def mk_proof_nodes(E):
+        from contracts.hexary_c import ProofNodes
+        E.ghost["hex_model"] = True
+        return ProofNodes(E)
+    hexcls = lambda E: objs.cls_of(E, "trie.hexary", "HexaryTrie")
+    _mk(reg, H + "get_from_proof", ["cls", "root_hash", "key", "proof"],
+        {"cls": hexcls, "root_hash": lambda E: objs.hash32(E, "root_hash"), "proof": mk_proof_nodes},
+        None, nb("key"), name="key-not-bytes")
+    _mk(reg, H + "get_from_proof", ["cls", "root_hash", "key", "proof"],
+        {"cls": hexcls, "key": "bytes", "proof": mk_proof_nodes},
+        None, nb("root_hash"), name="root-not-bytes")
+
     # the validators themselves
     _mk(reg, "trie.validation:validate_is_bytes", ["value"], {}, None, nb("value"), group="validation")
     def bad_length(E, a):
